@@ -118,6 +118,88 @@ func lightScript(script string) (string, bool) {
 	return b.String(), true
 }
 
+// recaxScript replaces the define-funs-rec block by uninterpreted functions with triggered
+// unfolding axioms (the ";;recax" lines emitted next to the block). The hypotheses are
+// equivalent; the solvers' handling differs (z3's recursive-function engine diverges on some
+// goals that E-matching on the unfolding axiom decides at once).
+func recaxScript(script string) (string, bool) {
+	if !strings.Contains(script, ";;recax ") {
+		return "", false
+	}
+	// names of the recursive spec functions (they get a fuel argument)
+	var recs []string
+	altLemma := map[string]bool{}
+	for _, ln := range strings.Split(script, "\n") {
+		if strings.HasPrefix(ln, ";;recax-rec ") {
+			recs = append(recs, strings.TrimSpace(strings.TrimPrefix(ln, ";;recax-rec ")))
+		}
+		if strings.HasPrefix(ln, ";;recax-lemma ") {
+			if i := strings.LastIndex(ln, "; lemma "); i >= 0 {
+				altLemma[ln[i:]] = true
+			}
+		}
+	}
+	withFuel := func(ln, fuel string) string {
+		for _, f := range recs {
+			ln = strings.ReplaceAll(ln, "("+f+" ", "("+f+" "+fuel+" ")
+		}
+		return ln
+	}
+	const top = "(FS (FS FZ))"
+	var b strings.Builder
+	skip := false
+	depth := 0
+	fuelDeclared := false
+	for _, ln := range strings.Split(script, "\n") {
+		if strings.HasPrefix(ln, "(define-funs-rec") {
+			skip = true
+			depth = 0
+		}
+		if skip {
+			depth += strings.Count(ln, "(") - strings.Count(ln, ")")
+			if depth <= 0 {
+				skip = false
+			}
+			continue
+		}
+		if !strings.HasPrefix(ln, ";;") {
+			if i := strings.LastIndex(ln, "; lemma "); i >= 0 && altLemma[ln[i:]] {
+				continue // replaced by the variant with an explicit trigger
+			}
+		}
+		switch {
+		case strings.HasPrefix(ln, ";;recax-lemma "):
+			ln = withFuel(strings.TrimPrefix(ln, ";;recax-lemma "), top)
+		case strings.HasPrefix(ln, ";;recax-rec "):
+			if !fuelDeclared {
+				b.WriteString("(declare-datatypes ((Fuel 0)) (((FZ) (FS (fpred Fuel)))))\n")
+				fuelDeclared = true
+			}
+			continue
+		case strings.HasPrefix(ln, ";;recax-body "):
+			// head: fuel (FS fu!) (already written); recursive calls in the body: fuel fu!
+			ln = strings.TrimPrefix(ln, ";;recax-body ")
+			for _, f := range recs {
+				// protect the two occurrences of the head, give every other call the lower fuel
+				ln = strings.ReplaceAll(ln, "("+f+" (FS fu!) ", "(\x00"+f+" (FS fu!) ")
+				ln = strings.ReplaceAll(ln, "("+f+" ", "("+f+" fu! ")
+				ln = strings.ReplaceAll(ln, "(\x00"+f+" ", "("+f+" ")
+			}
+		case strings.HasPrefix(ln, ";;recax-syn "):
+			ln = strings.TrimPrefix(ln, ";;recax-syn ")
+		case strings.HasPrefix(ln, ";;recax (declare-fun "):
+			ln = strings.TrimPrefix(ln, ";;recax ")
+		case strings.HasPrefix(ln, ";;recax "):
+			ln = withFuel(strings.TrimPrefix(ln, ";;recax "), top)
+		default:
+			ln = withFuel(ln, top)
+		}
+		b.WriteString(ln)
+		b.WriteString("\n")
+	}
+	return b.String(), true
+}
+
 func discharge(script string, dir string, name string, timeoutS int, seed int, stage1Only bool) solveResult {
 	file := filepath.Join(dir, shortName(name, 90)+".smt2")
 	if err := os.WriteFile(file, []byte(script), 0o644); err != nil {
@@ -147,8 +229,22 @@ func discharge(script string, dir string, name string, timeoutS int, seed int, s
 	ctx, cancel := context.WithCancel(context.Background())
 	defer cancel()
 	all := append([]solverSpec{ematch}, solvers...)
-	ch := make(chan solveResult, len(all))
+	ch := make(chan solveResult, len(all)+1)
 	var wg sync.WaitGroup
+	if rx, ok := recaxScript(script); ok {
+		wg.Add(1)
+		go func() {
+			defer wg.Done()
+			f := strings.TrimSuffix(file, ".smt2") + ".recax.smt2"
+			os.WriteFile(f, []byte(rx), 0o644)
+			r := runSolver(ctx, ematch, f, timeoutS, seed)
+			r.solver += "(recax)"
+			if r.status != "unsat" {
+				r.status = "timeout" // only a refutation counts from this variant
+			}
+			ch <- r
+		}()
+	}
 	for _, s := range all {
 		wg.Add(1)
 		go func(s solverSpec) {
